@@ -11,7 +11,7 @@ use crate::tape::Tape;
 
 pub static PROP: PropDef = PropDef {
     id: "C15",
-    rule: "cases: int round trip (prefix size 1..8, flags, value), int decode (prefix size, bytes), string round trip (size 2..8, flags, bytes), Huffman decode (payload) \
+    rule: "every integer / string literal decode is repeated from a buffer of several chunks (same cut sets as C11) and must agree with the one-slice result in value, flags and bytes consumed; cases: int round trip (prefix size 1..8, flags, value), int decode (prefix size, bytes), string round trip (size 2..8, flags, bytes), Huffman decode (payload) \
            and the same payload through the string codec and through decode_stateless as a literal field line. exhaustive: all Huffman payloads of 0..2 bytes (0..3 thorough), \
            all strings of 0..2 bytes x sizes 2..8, ints at all power-of-two / prefix boundaries x sizes 1..8, all continuation patterns over {00,01,7f,80,ff}^k (k<=7 quick, k<=10 thorough) x sizes; \
            random: valid encodings with every padding length 0..15 x random padding bits, EOS spliced at symbol boundaries, random strings <= 1 KiB, random 64-bit ints. \
@@ -112,6 +112,21 @@ fn check_huff_paths(payload: &[u8], ctx: &mut Ctx) -> Verdict {
         (Err(_), Ok(h)) if d.tail_all_ones && d.tail_bits >= 8 && h == &d.prefix && ctx.known(KNOWN_D9B) => return Ok(()),
         (w, h) => return Err(Failure::direct(format!("string literal: reference {w:?}, h3 {h:?} ({} bytes left)", got.1), case())),
     };
+    // the same literal in a buffer of several chunks
+    for cuts in crate::tape::cut_sets(&lit) {
+        ctx.eval();
+        let case = || json!({"kind": "huff_paths", "payload": hex(payload), "cuts": cuts});
+        let mut segs = crate::tape::Segs::new(&lit, &cuts);
+        let g = catch(move || {
+            let r = prefix_string_decode(8, &mut segs);
+            (r.ok(), segs.remaining())
+        })
+        .map_err(|p| Failure::direct(format!("panic in prefix_string::decode over a segmented buffer: {p}"), case()))?;
+        if g.0 != got.0.as_ref().ok().cloned() || (g.0.is_some() && g.1 != got.1) {
+            return Err(Failure::direct(format!("string literal from chunks cut at {cuts:?}: {:?} ({} left); from one slice: {:?} ({} left)", g.0.map(|x| hex(&x)), g.1, got.0.as_ref().ok().map(|x| hex(x)), got.1), case()));
+        }
+        ctx.class("string_segmented_agrees");
+    }
     // field line: 00 00 | 0x27+name... use literal name "x" non huffman: 0x21 'x' then value
     let mut sec = vec![0u8, 0, 0x21, b'x'];
     sec.extend_from_slice(&lit);
@@ -226,6 +241,7 @@ fn check_int_decode(size: u8, b: &[u8], ctx: &mut Ctx) -> Verdict {
         (r, b2.len() - buf.remaining())
     })
     .map_err(|p| Failure::direct(format!("panic in prefix_int::decode: {p}"), case()))?;
+    let contiguous = (got.0.as_ref().ok().copied(), got.1);
     match rq::get_int(b, size) {
         None => {
             if let Ok(x) = got.0 {
@@ -260,6 +276,22 @@ fn check_int_decode(size: u8, b: &[u8], ctx: &mut Ctx) -> Verdict {
                 ctx.nontrivial(&(5u8, size, b[..d.used].to_vec()));
             }
         }
+    }
+    // the same bytes in a buffer of several chunks: same flags, value, bytes consumed, same refusal
+    for cuts in crate::tape::cut_sets(b) {
+        ctx.eval();
+        let case = || json!({"kind": "int_decode", "size": size, "bytes": hex(b), "cuts": cuts});
+        let mut segs = crate::tape::Segs::new(b, &cuts);
+        let total = b.len();
+        let g = catch(move || {
+            let r = prefix_int_decode(size, &mut segs).ok();
+            (r, total - segs.remaining())
+        })
+        .map_err(|p| Failure::direct(format!("panic in prefix_int::decode over a segmented buffer: {p}"), case()))?;
+        if g.0 != contiguous.0 || (g.0.is_some() && g.1 != contiguous.1) {
+            return Err(Failure::direct(format!("from chunks cut at {cuts:?}: {:?} using {} bytes; from one slice: {:?} using {}", g.0, g.1, contiguous.0, contiguous.1), case()));
+        }
+        ctx.class("int_segmented_agrees");
     }
     Ok(())
 }
